@@ -85,6 +85,15 @@ def run(case):
     out = Outcome()
     sub = "history"
     g = drive.case_function(case)
+    if case.get("fbt") and case["fseed"] % 4 != 0:
+        # histories driven by the library's estimator: a discontinuous integrand (jump across an oblique hyperplane) gives the
+        # locally deep, unsymmetric trees that smooth integrands do not produce
+        g0, a_, b_ = g, list(case["a"]), list(case["b"])
+        rj = np.random.default_rng(case["fseed"] + 5)
+        wj = rj.uniform(0.5, 2.0, case["dim"])
+        tj = float(rj.uniform(0.25, 0.75)) * float(np.sum(wj))
+        g = lambda x: g0(x) + (2.0 if sum(wj[d] * (x[d] - a_[d]) / (b_[d] - a_[d]) for d in range(len(a_))) > tj else 0.0)
+        out.cls("discontinuous-integrand")
     singular = (not case["boundary"]) and case["fseed"] % 4 == 3
     if singular:
         # without boundary points the integrand may be non-finite on the boundary of the box
@@ -122,7 +131,7 @@ def run(case):
         out.cls("strict-subset-step")
     if st_["raised"]:
         out.cls("lmax-raised")
-    out.cls(drive.scale_class(case))
+    out.cls(drive.scale_class(case), "force_balanced_refinement_tree=%s" % bool(case.get("fbt")), "bounds-given-as=%s" % (case.get("bounds") or "float-arrays"))
     out.cls("version=%d" % case["version"], "rebalancing=%s" % case["rebalancing"], "boundary=%s" % case["boundary"], "d=%d" % case["dim"])
     if case.get("legs"):
         out.cls("history-cut-into-%d-runs" % min(len(case["legs"]) + 1, 4))
@@ -133,7 +142,7 @@ def run(case):
 
 
 def strategy(tier):
-    return drive.st_dw_case(tier=tier, scales=True, bounds_forms=True)
+    return drive.st_dw_case(tier=tier, scales=True, bounds_forms=True, fbt=True)
 
 
 def selftest():
